@@ -620,3 +620,18 @@ func (em *emitter) isStructIndirection(expr ast.Expression) bool {
 	ti := em.ti(expr)
 	return ti == nil || ti.Type == nil || ti.Type.Kind() == reflect.Struct
 }
+
+// detachValue is called after an index or selector expression of type typ
+// has been emitted in reg. The Index and Field instructions return a value
+// that refers to the element or field: if the expression is not an operand
+// (see operandDepth) and its type is a struct or an array, the value is
+// copied, so that it does not change with the element or field and assigning
+// to it does not change them.
+func (em *emitter) detachValue(reg int8, typ reflect.Type) {
+	if em.operandDepth > 0 || reg == 0 {
+		return
+	}
+	if k := typ.Kind(); k == reflect.Struct || k == reflect.Array {
+		em.fb.emitMove(false, reg, reg, k)
+	}
+}
